@@ -199,7 +199,7 @@ impl Check for C19 {
         .boxed()
     }
     fn rule(&self) -> String {
-        "external tasks (as in C02) and strong tasks over unrestricted random programs (unsafe rules, nested arithmetic) x one interpretation (guided as in C02, or random H subset-of T for strong tasks); the problems are generated under all 8 combinations of simplify / eq-break / decomposition; oracle: for each direction the verdict 'some problem has all axioms true and its conjecture false' (exact evaluation) is the same under every combination whenever definite; non-trivial = the axioms of some problem hold under some combination; distinct by task + interpretation".into()
+        "external tasks (as in C02) and strong tasks over unrestricted random programs (unsafe rules, nested arithmetic) x one interpretation (guided as in C02; for strong tasks a random interpretation of the h-/t-copies with H subset-of T, in one case of three with the two copies of one predicate exchanged so that H is not a subset of T); the problems are generated under all 8 combinations of simplify / eq-break / decomposition; oracle: for each direction the verdict 'some problem has all axioms true and its conjecture false' (exact evaluation) is the same under every combination whenever definite; non-trivial = the axioms of some problem hold under some combination; distinct by task + interpretation".into()
     }
     fn run(&self, case: &FlagCase) -> Outcome {
         let (vs, description, jtext) = match case {
@@ -227,7 +227,20 @@ impl Check for C19 {
                 let pool = c01::program_pool(&both);
                 let preds = c01::program_preds(&both);
                 let (h, t) = g::build_interp(raw, &preds, &[], &pool);
-                let j = ht_as_classical(&h, &t);
+                let mut j = ht_as_classical(&h, &t);
+                // the property ranges over all interpretations of the h-/t-copies, not only those
+                // with H subset-of T: in one case of three the extents of the two copies of one
+                // predicate are exchanged (decided from the raw interpretation itself)
+                let selector: usize = raw.tuples.iter().flatten().flatten().map(|x| *x as usize).sum();
+                if selector % 3 == 0 && !preds.is_empty() {
+                    let (n, a) = preds[(selector / 3) % preds.len()].clone();
+                    let hk = (format!("h{n}"), a);
+                    let tk = (format!("t{n}"), a);
+                    let he = j.preds.remove(&hk).unwrap_or_default();
+                    let te = j.preds.remove(&tk).unwrap_or_default();
+                    j.preds.insert(hk, te);
+                    j.preds.insert(tk, he);
+                }
                 let build = |flags: &Flags| Some(ops::strong_problems(left, right, flags, *mu));
                 (
                     verdicts(&build, &j, &pool),
